@@ -950,3 +950,5 @@ if __name__ == '__main__':  # pragma: no cover
     explain(rec.get('plan', rec))
 
 INFO['rule'] += ' Round-5 additions: the recording listener is attached on TransferAddedEvent (what is reported while the cache loads is judged); live shape (checks/c03_live.py, weight 15 %): a real download / upload against a scripted peer that injects queue-failure / upload-failure / second-offer / repeated-queue messages around a slow file connection, user abort / pause / queue meanwhile; invariant C03.side_effect (reasons and timestamps of a transfer resting in FAILED / ABORTED / PAUSED / COMPLETE do not change).'
+
+INFO['rule'] += ' Round-6 additions: an application state listener that raises after it was told (listener_raises); an operation that never returns is C03.result what=never_returned.'
